@@ -1588,6 +1588,10 @@ pub struct Tree {
 /// Shuts the store down when dropped (see `Tree::_last_handle`).
 struct CloseOnDrop {
 	core: Arc<Core>,
+	/// Runtime the store was opened in (its background tasks run there). Used when
+	/// the last handle is dropped on a thread that is not inside a runtime.
+	#[cfg(not(target_arch = "wasm32"))]
+	runtime: Option<tokio::runtime::Handle>,
 }
 
 impl Tree {
@@ -1612,6 +1616,8 @@ impl Tree {
 		Ok(Self {
 			_last_handle: Arc::new(CloseOnDrop {
 				core: Arc::clone(&core),
+				#[cfg(not(target_arch = "wasm32"))]
+				runtime: tokio::runtime::Handle::try_current().ok(),
 			}),
 			core,
 		})
@@ -1870,7 +1876,9 @@ impl Drop for CloseOnDrop {
 		#[cfg(not(target_arch = "wasm32"))]
 		{
 			// Native environment - use tokio
-			if let Ok(handle) = tokio::runtime::Handle::try_current() {
+			if let Some(handle) =
+				tokio::runtime::Handle::try_current().ok().or_else(|| self.runtime.clone())
+			{
 				// Clone the Arc to move into the async task
 				let core = Arc::clone(&self.core);
 				handle.spawn(async move {
